@@ -64,9 +64,49 @@ def observe(cli, types, external=(), config=None, files=None):
                             shapes[(i, site)] = None
                 entry["shapes"] = shapes
                 entry["env"] = env
+            entry["pkeys"] = params_keys(out, mode)
             res[mode] = entry
         finally:
             g.cleanup()
+    return res
+
+
+def params_keys(out, mode):
+    """-> {parameter-object name: sorted keys of the declared TypeScript type}. Zod mode: the keys of the schema a type is inferred
+    from, plus what an interface adds on top"""
+    ifs, res = out.interfaces(), {}
+    if mode == "none":
+        for n, it in ifs.items():
+            if n.endswith("Params"):
+                res[n] = sorted(m[1] for m in it["members"] if m[0] == "prop")
+        return res
+    consts = out.consts()
+
+    def inferred(ty):
+        if isinstance(ty, tuple) and ty[0] == "ref" and ty[1] == "z.infer" and ty[2] and ty[2][0][0] == "typeof":
+            ci = consts.get(ty[2][0][1])
+            if ci is not None and ci["init"] is not None:
+                try:
+                    s_ = sh.zod_shape(ci["init"])
+                    if s_[0] == "obj":
+                        return [p_[0] for p_ in s_[1]]
+                except sh.ShapeError:
+                    return None
+        return None
+    for n, it in ifs.items():
+        if n.endswith("Params"):
+            keys = [m[1] for m in it["members"] if m[0] == "prop"]
+            for e in it["extends"]:
+                k = inferred(e)
+                if k is None:
+                    keys = None
+                    break
+                keys += k
+            res[n] = sorted(keys) if keys is not None else None
+    for n, it in out.aliases().items():
+        if n.endswith("Params") and n not in res:
+            k = inferred(it["type"])
+            res[n] = sorted(k) if k is not None else None
     return res
 
 
@@ -112,6 +152,16 @@ def run_batch(a):
             out["compared"] += 1
             if not same_structure(t, n, z):
                 out["diff"].append((i, site, n, z))
+    # the parameter object as a whole: same keys in both modes (regular parameters and channels alike)
+    out["pkeys_diff"] = []
+    out["pkeys_compared"] = 0
+    for n, kn in r["none"]["pkeys"].items():
+        kz = r["zod"]["pkeys"].get(n)
+        if n not in r["zod"]["pkeys"]:
+            continue        # reported as a name-set difference
+        out["pkeys_compared"] += 1
+        if kz is None or kn != kz:
+            out["pkeys_diff"].append((n, kn, kz))
     env = r["zod"]["env"]
     for (i, t) in types:
         vals = values.get(rg.rust(t))
@@ -235,6 +285,11 @@ def run(tier):
             v.violation("C10 type-name-sets-differ" + (" mapped-project-types" if defined else ""), "none declares %s, zod declares %s" % (sorted(set(r["names_none"]) - set(r["names_zod"])), sorted(set(r["names_zod"]) - set(r["names_none"]))), wit(job[1][0][0]))
         if r["params_none"] != r["params_zod"]:
             v.violation("C10 params-name-sets-differ", "only none: %s; only zod: %s" % (sorted(set(r["params_none"]) - set(r["params_zod"]))[:5], sorted(set(r["params_zod"]) - set(r["params_none"]))[:5]), wit(job[1][0][0]))
+        v.count("parameter_objects_key_sets_compared", r.get("pkeys_compared", 0))
+        for (n_, kn, kz) in r.get("pkeys_diff", [])[:3]:
+            idx_ = int("".join(ch for ch in n_ if ch.isdigit()) or job[1][0][0])
+            v.violation("C10 parameter-object-keys-differ only-%s" % ("plain" if kz is not None and set(kn) - set(kz) else "zod" if kz is not None else "zod-unreadable"),
+                        "%s: plain mode declares keys %s, the Zod-mode type has %s" % (n_, kn, kz), wit(idx_ if idx_ in tmap else job[1][0][0]))
         for (i, site, n, z) in r["diff"]:
             t = tmap[i]
             if is_mapped:
